@@ -134,6 +134,9 @@ def check_e2e(case):
         for i, d in enumerate(descs):
             f.write(f"01/{10 + i}/2025,{R.csv_quote(d)},{10 + i}.50\n")
         f.write('01/20/2025,KNOWN SHOP,5.00\n')
+        if descs:
+            # the first description occurs again as a refund (one description, both signs)
+            f.write(f"01/25/2025,{R.csv_quote(descs[0])},-3.25\n")
     with open(os.path.join(base, "config", "settings.yaml"), "w", encoding="utf-8") as f:
         f.write('year: 2025\nmerchants_file: config/merchants.rules\ndata_sources:\n  - name: S\n    file: data/s.csv\n'
                 '    format: "{date:%m/%d/%Y},{description},{amount}"\n')
